@@ -39,15 +39,19 @@ type Commit struct {
 type Step struct {
 	Action string `json:"a"`
 	Commit int    `json:"c"`
+	Order  string `json:"o"` // rebase_order to write (decimal, e.g. "3.7"); default: position
 }
 
 type Op struct {
-	Kind string `json:"kind"` // cp | rv | rb
-	Head int    `json:"head"`
-	C    int    `json:"c"`
-	Onto int    `json:"onto"`
-	Plan []Step `json:"plan"`
-	Res  string `json:"res"` // what to do when the operation stops with conflicts: "" (give up) | ours | theirs | abort
+	Kind      string `json:"kind"` // cp | rv | rb
+	Head      int    `json:"head"`
+	C         int    `json:"c"`
+	Onto      int    `json:"onto"`
+	Plan      []Step `json:"plan"`
+	Dirty     []Row  `json:"dirty"` // cp / rv: unrelated unstaged edit: new rows of table t2 in the working set (nil: none)
+	HasDirty  bool   `json:"hasdirty"`
+	Untracked bool   `json:"untracked"` // cp / rv: an untracked table u exists in the working set
+	Res       string `json:"res"`       // what to do when the operation stops with conflicts: "" (give up) | ours | theirs | abort
 }
 
 type Case struct {
@@ -159,10 +163,16 @@ func parseCell(v string) *int {
 	return &n
 }
 
-func readContent(s *util.Session) ([]Row, error) {
+func readContent(s *util.Session) ([]Row, error) { return readContentAsOf(s, "") }
+
+func readContentAsOf(s *util.Session, rev string) ([]Row, error) {
 	out := []Row{}
 	for t := 1; t <= NTables; t++ {
-		r := s.Exec("SELECT * FROM " + tname(t) + " ORDER BY pk")
+		q := "SELECT * FROM " + tname(t)
+		if rev != "" {
+			q += " AS OF '" + rev + "'"
+		}
+		r := s.Exec(q + " ORDER BY pk")
 		if r.Err != "" {
 			return nil, fmt.Errorf("read %s: %s", tname(t), r.Err)
 		}
@@ -182,6 +192,8 @@ func str(v string) string { return strings.TrimPrefix(v, "s:") }
 func classify(msg string) string {
 	m := strings.ToLower(msg)
 	switch {
+	case strings.Contains(m, "uncommitted changes"), strings.Contains(m, "local changes would be overwritten"):
+		return "refused"
 	case strings.Contains(m, "schema conflict"), strings.Contains(m, "schema"):
 		return "schemaconflict"
 	case strings.Contains(m, "conflict"):
@@ -278,6 +290,22 @@ func Run(raw json.RawMessage) (any, error) {
 			return obs, err
 		}
 		base := hashes[start]
+		dirtyOp := op.HasDirty || op.Untracked
+		if op.HasDirty {
+			if err := s.MustExec("DELETE FROM t2"); err != nil {
+				return obs, err
+			}
+			for _, r := range op.Dirty {
+				if err := s.MustExec(fmt.Sprintf("INSERT INTO t2 VALUES (%d,%s,%s)", r.K, cellSQL(r.Cs[0]), cellSQL(r.Cs[1]))); err != nil {
+					return obs, err
+				}
+			}
+		}
+		if op.Untracked {
+			if err := s.MustExec("CREATE TABLE u (pk int primary key)", "INSERT INTO u VALUES (1)"); err != nil {
+				return obs, err
+			}
+		}
 		pre := fingerprint(s)
 		switch op.Kind {
 		case "cp", "rv":
@@ -316,7 +344,10 @@ func Run(raw json.RawMessage) (any, error) {
 					o.Kind, o.Pauses = "resolved", 1
 				}
 			}
-			if o.Kind != "ok" && o.Kind != "resolved" && o.Kind != "aborted" {
+			if o.Kind == "refused" {
+				o.Restored = fingerprint(s) == pre
+			}
+			if o.Kind != "ok" && o.Kind != "resolved" && o.Kind != "aborted" && o.Kind != "refused" {
 				s.Exec(fmt.Sprintf("CALL %s('--abort')", proc))
 				s.Exec("CALL dolt_reset('--hard')")
 			}
@@ -341,7 +372,11 @@ func Run(raw json.RawMessage) (any, error) {
 				break
 			}
 			for j, st := range op.Plan {
-				q := fmt.Sprintf("INSERT INTO dolt_rebase VALUES (%d,'%s','%s','m%d')", j+1, st.Action, hashes[st.Commit], j)
+				ord := strconv.Itoa(j + 1)
+				if st.Order != "" {
+					ord = st.Order
+				}
+				q := fmt.Sprintf("INSERT INTO dolt_rebase VALUES (%s,'%s','%s','m%d')", ord, st.Action, hashes[st.Commit], j)
 				if err := s.MustExec(q); err != nil {
 					o.Kind, o.Msg = "err", err.Error()
 				}
@@ -385,19 +420,41 @@ func Run(raw json.RawMessage) (any, error) {
 			return nil, fmt.Errorf("unknown op %q", op.Kind)
 		}
 		ab := s.Exec("SELECT active_branch()")
-		if o.Kind == "ok" || o.Kind == "resolved" || o.Kind == "aborted" {
+		if o.Kind == "ok" || o.Kind == "resolved" || o.Kind == "aborted" || o.Kind == "refused" {
 			if len(ab.Rows) != 1 || str(ab.Rows[0][0]) != br {
 				o.Kind, o.Msg = "err", "unexpected active branch after op: "+fmt.Sprint(ab.Rows)
 			}
-			rows, err := readContent(s)
+			rows, err := readContentAsOf(s, "HEAD")
 			if err != nil {
 				return nil, err
 			}
 			o.Rows = rows
+			o.Work, err = readContent(s)
+			if err != nil {
+				return nil, err
+			}
 			o.Cols1, _ = cols1Of(s)
-			st := s.Exec("SELECT count(*) FROM dolt_status")
-			if st.Err != "" || st.Rows[0][0] != "i:0" {
-				o.Kind, o.Msg = "err", "working set not clean after op: "+st.Err
+			st := s.Exec("SELECT table_name, staged, status FROM dolt_status ORDER BY table_name")
+			if !dirtyOp {
+				if st.Err != "" || len(st.Rows) != 0 {
+					o.Kind, o.Msg = "err", "working set not clean after op: "+st.Err+fmt.Sprint(st.Rows)
+				}
+			} else {
+				// exactly the unrelated edits are still listed, unstaged; the untracked table is not in HEAD
+				want := [][]string{}
+				if op.HasDirty {
+					want = append(want, []string{"s:t2", "i:0", "s:modified"})
+				}
+				if op.Untracked {
+					want = append(want, []string{"s:u", "i:0", "s:new table"})
+				}
+				o.DirtyKept = st.Err == "" && fmt.Sprint(st.Rows) == fmt.Sprint(want)
+				if op.Untracked && s.Exec("SELECT count(*) FROM u AS OF 'HEAD'").Err == "" {
+					o.DirtyKept = false
+				}
+				if !o.DirtyKept {
+					o.Msg += " status=" + fmt.Sprint(st.Rows) + st.Err
+				}
 			}
 			cnt := s.Exec(fmt.Sprintf("SELECT count(*) FROM dolt_log('%s..HEAD')", base))
 			if cnt.Err == "" {
